@@ -29,6 +29,7 @@ RULE = ("One evaluation = one seeded execution: client A (dilation enabled) "
         "Connector existed) or the peer could not dilate. Distinct: "
         "event-log digests among non-trivial runs.")
 RULE += (' Peer-link cuts are told to both ends or to one end first (the other learns later).')
+RULE += (' A fifth configuration uses transports with bounded send buffers drained by the scheduler; both sides open subchannels, write 3..200 kB and close the wormhole at once or a little later.')
 LEVEL_TEXT = ("Seeded exploration. After faults stop, every close() that was "
               "called completes (closed notification) within 8000 events / "
               "600 simulated seconds; afterwards the closing side owns no "
@@ -50,7 +51,11 @@ PEER_KINDS = ("dilates", "dilates", "never_dilates", "old_peer")
 
 
 def configs(tier):
-    return [{"spake": "stub", "peer": k} for k in PEER_KINDS]
+    # the fifth: both sides dilate, subchannels carry bulk data and the
+    # transports have bounded send buffers drained by the scheduler, so that
+    # close() finds the peer connection with unsent data (Outbound paused)
+    return [{"spake": "stub", "peer": k} for k in PEER_KINDS] + \
+        [{"spake": "stub", "peer": "dilates", "backpressure": True}]
 
 
 class Owner:
@@ -110,7 +115,18 @@ def run_one(seed, tape, opts):
             d.addCallbacks(lambda p: rec.__setitem__(1, "ok"),
                            lambda f: (rec.__setitem__(1, "failed"),
                                       rec.__setitem__(2, f.type)))
-        return {"sub_connect": do_connect, "sub_listen": do_listen}
+        def do_write(c=c):
+            # bulk data on every subchannel this side has open
+            n = 0
+            for p in owners[c.name].protocols:
+                if p.made and not p.lost:
+                    p.transport.write(tape.blob(1, 7) *
+                                      tape.pick((3000, 70000, 200000), "bulk"))
+                    n += 1
+            if n:
+                sim.note("probe.bulk_write_before_close")
+        return {"sub_connect": do_connect, "sub_listen": do_listen,
+                "sub_write": do_write}
     w.extra_ops = {}
     ops_a, ops_b = sub_ops(a), sub_ops(b)
 
@@ -119,7 +135,14 @@ def run_one(seed, tape, opts):
             (ops_a if c is a else ops_b)[kind]()
         return run
     w.extra_ops = {"sub_connect": dispatch("sub_connect"),
-                   "sub_listen": dispatch("sub_listen")}
+                   "sub_listen": dispatch("sub_listen"),
+                   "sub_write": dispatch("sub_write")}
+    backpressure = bool(opts.get("backpressure"))
+    if backpressure:
+        sim.net.autoflush = False
+        sim.net.high_water = tape.pick((1000, 65536), "hw")
+        sim.net.window = tape.pick((2000, 100000, 1 << 30), "win")
+        sim.note("probe.staged_transport")
 
     def script(c, dilates):
         ops = [("set_code", code)]
@@ -129,6 +152,8 @@ def run_one(seed, tape, opts):
                                                        == 0)}))
             for _ in range(tape.choose(4, "nsub")):
                 extra.append((tape.pick(("sub_connect", "sub_listen"), "so"),))
+            if backpressure:
+                extra += [("sub_connect",), ("sub_listen",)]
         ops = ca.interleave(tape, ops, extra)
         # dilate must precede the subchannel ops
         if dilates:
@@ -142,6 +167,13 @@ def run_one(seed, tape, opts):
         ops.append(("wait_event_or_steps", ev, tape.choose(400, "ws")))
         if tape.choose(2, "linger"):
             ops.append(("wait_steps", tape.choose(120, "ls")))
+        if dilates and backpressure:
+            # the application writes its data and closes the wormhole
+            ops.append(("wait_event_or_steps", "versions", 400))
+            ops.append(("wait_steps", 20 + tape.choose(200, "bw")))
+            ops.append(("sub_write",))
+            if tape.choose(2, "linger2"):
+                ops.append(("wait_steps", tape.choose(60, "ls2")))
         ops.append(("close",))
         if dilates and tape.choose(3, "after") == 0:
             ops.append(("sub_connect",))
@@ -208,12 +240,31 @@ def run_one(seed, tape, opts):
     if r != "until":
         pend = [c.name for c in (a, b) if c.close_called and not c.is_closed]
         if pend:
+            l2 = []
+            for c in (a, b):
+                m = c.w._boss._D._manager
+                if c.name not in pend or m is None:
+                    continue
+                for link in sim.net.links:
+                    for end in link.ends:
+                        p = unwrap(end.protocol) if end.protocol else None
+                        if isinstance(p, DilatedConnectionProtocol) and \
+                                p._connector._manager is m and end.alive:
+                            t = end.transport
+                            l2.append("%s link %d: closing=%s unsent=%d "
+                                      "producer=%s paused=%s peer_alive=%s" %
+                                      (c.name, link.serial,
+                                       bool(t.disconnecting),
+                                       end.sendbuf_len(),
+                                       type(t.producer).__name__,
+                                       t.producerPaused, end.peer.alive))
             V("C17.close_hangs", "closing a wormhole on which dilate() was "
               "called always completes",
               "after heal: %s after %d events / %.0f s; close() pending on %r "
-              "(peer kind %s; manager state at close: %r)" %
+              "(peer kind %s; manager state at close: %r); its peer "
+              "connections: %s" %
               (r, sim.steps - steps0, sim.now() - t0, pend, peer_kind,
-               close_state))
+               close_state, "; ".join(l2) or "none"))
     else:
         sim.run(3000, max_time=150)
         for c in (a, b):
